@@ -16,7 +16,7 @@ import XrsVerif.Core.Wire
   The model follows the repaired code:
     fixes/D5-…   `_trim` compares NaN-aware (`e == val or (isnan(e) and isnan(val))`), so a listed NaN
                  is excluded;
-    fixes/D18a-…  when the first scan finds nothing both kernels return the empty window (0,-1,0,-1)
+    fixes/D16-…  when the first scan finds nothing both kernels return the empty window (0,-1,0,-1)
                  instead of (rows-1, 0, cols-1, 0), which is a non-empty window for a 1×1 raster.
   Values are `Wire.Num` (NaN, ±inf, exact rationals); structural equality on `Num` is the NaN-aware
   equality, `ieeeEq` is the `==` of floats.
@@ -101,7 +101,7 @@ def crop {κ τ : Type} (zones values : Raster κ τ) (ids : List Num) (name : S
 /-- `_trim` before fixes/D5: `e == val` -/
 def keptAsIs (excludes : List Num) (v : Num) : Bool := !(excludes.any (fun e => ieeeEq e v))
 
-/-- `_trim` / `_crop` before fixes/D18a: no early return -/
+/-- `_trim` / `_crop` before fixes/D16: no early return -/
 def boundsAsIs (rows cols : Nat) (hit : Nat → Nat → Bool) : Bounds :=
   ⟨(scan (List.range rows) (rowHit cols hit)).1,
    (scan (List.range rows).reverse (rowHit cols hit)).1,
